@@ -273,7 +273,8 @@ def run_trees(ctx):
 def run(ctx):
     ctx.note('rule', 'one case = (operator instance or expression tree, base point away from kinks, direction); registry classes '
                      'implementing derivative x spaces, block / expression operators with nonlinear entries and user temporaries, '
-                     'seeded random trees over differentiable leaves; distinct = distinct recipe names / expression texts')
+                     'seeded random trees over differentiable leaves; 9 arithmetic / chain-rule wrappers per leaf decided exactly against '
+                     'the rule applied to the leaf derivative; distinct = distinct recipe names / expression texts')
     ctx.note('exempt', list(EXEMPT))
     cov = cover.Cover()
     from odl.operator import operator as opm, default_ops, tensor_ops, pspace_ops
